@@ -1,6 +1,308 @@
-"""Variant catalogue (filled in below); see DESIGN.md section 5.1."""
+"""Both-ways self-test: breaking and behaviour-preserving variants of /repo/wcmatch on scratch copies.
+
+Each variant is one textual edit (the `old` text must occur exactly once in the file). A *breaking* variant changes
+behaviour (witness given) and must make every listed property check exit 1 with a VIOLATION whose replay names the
+edited construct; a *neutral* variant is a refactor that must leave every check at exit 0.  Scratch copies live under a
+`tempfile.mkdtemp()` directory outside /repo and /verif and are removed in a `finally`.
+A failing self-test is an ANALYSIS-ERROR (exit 2): the checker is broken, the property is not judged.
+"""
 from __future__ import annotations
+
+import ast
+import contextlib
+import io
+import json
+import os
+import shutil
+import tempfile
+from concurrent.futures import ProcessPoolExecutor
+from dataclasses import dataclass, field
+
+
+@dataclass
+class Variant:
+    vid: str
+    kind: str  # 'break' | 'neutral'
+    props: list[str]  # properties whose check must fire (break) / all properties are run for neutral
+    file: str  # relative to the repo root
+    old: str
+    new: str
+    expect: str = ''  # substring expected in a violated obligation key
+    witness: str = ''
+    count: int = 1  # how many occurrences of `old` are replaced (must match exactly)
+
+
+V = Variant
+P = 'wcmatch/_wcparse.py'
+G = 'wcmatch/glob.py'
+M = 'wcmatch/_wcmatch.py'
+W = 'wcmatch/wcmatch.py'
+U = 'wcmatch/util.py'
+L = 'wcmatch/pathlib.py'
+F = 'wcmatch/fnmatch.py'
+X = 'wcmatch/posix.py'
+
+VARIANTS: list[Variant] = [
+    # ---------------------------------------------------------------- fragments (C01/C02/C03/C08)
+    V('b-plus-group', 'break', ['C01', 'C08'], P, "_PLUS_GROUP = r'(?:{})+'", "_PLUS_GROUP = r'(?:{})*'", '_PLUS', "fnmatch('', '+(a)', E) becomes True"),
+    V('b-qmark-any', 'break', ['C01'], P, "_QMARK = r'.'", "_QMARK = r'[^\\n]'", '_QMARK', "fnmatch('\\n', '?') becomes False"),
+    V('b-star-plus', 'break', ['C01'], P, "_STAR = r'.*?'", "_STAR = r'.+?'", '_STAR', "fnmatch('a', 'a*') becomes False"),
+    V('b-path-star-any', 'break', ['C02'], P, "_PATH_STAR = r'[^{sep}]*?'", "_PATH_STAR = r'.*?'", 'path_star', "globmatch('a/b/c', 'a/*') becomes True"),
+    V('b-no-slash-dot', 'break', ['C02', 'C03'], P, "_PATH_NO_SLASH_DOT = r'(?![{sep}.])'", "_PATH_NO_SLASH_DOT = r'(?![{sep}])'", 'seq_path_dot', "globmatch('.a', '?a') becomes True"),
+    V('b-need-char-path', 'break', ['C02'], P, "_NEED_CHAR_PATH = r'(?=[^{sep}])'", "_NEED_CHAR_PATH = r'(?=.)'", 'need_char', "globmatch('a/', 'a/*') becomes True"),
+    V('b-gstar-nodot', 'break', ['C02', 'C03'], P, "_PATH_GSTAR_NO_DOTMATCH = r'(?:(?!(?:[{sep}]|^)\\.).)*?'", "_PATH_GSTAR_NO_DOTMATCH = r'(?:(?!(?:[{sep}])\\.).)*?'", 'path_gstar_dot2', "globmatch('.a/b', '**', G) becomes True"),
+    V('b-eop-dollar', 'break', ['C01'], P, "_EOP = r'\\Z'", "_EOP = r'$'", '_EOP', "fnmatch('a\\n', '!(a)', E) becomes False (regression of the repaired F8)"),
+    V('b-capture-template', 'break', ['C08'], P, "_STAR_CAPTURE_GROUP = r'((?#)(?:{})*)'", "_STAR_CAPTURE_GROUP = r'((?#)(?:{}))*'", '_STAR_CAPTURE_GROUP', "translate('*(a)', E) captures only the last iteration"),
+    V('b-capture-in-fragment', 'break', ['C08', 'C04'], P, "_PATH_NO_SLASH = r'(?![{sep}])'", "_PATH_NO_SLASH = r'(?!([{sep}]))'", 'groups', "translate('@(a)?', ...) gets an extra group; _fs_match would read it as a `**` capture"),
+    V('b-no-root', 'break', ['C04'], P, "_NO_ROOT = r'(?!/)'", "_NO_ROOT = r'(?!//)'", '_NO_ROOT', "globmatch('/etc', '**', G, REALPATH) becomes True"),
+    V('b-sep-run', 'break', ['C02'], P, "                    current.append(self.sep + _ONE_OR_MORE)\n                    self.consume_path_sep(i)", "                    current.append(self.sep)\n                    self.consume_path_sep(i)", 'sep', "globmatch('a//b', 'a/b') becomes False"),
+    V('b-trail', 'break', ['C02'], P, "current.append(_PATH_TRAIL.format(self.sep))", "current.append(_PATH_TRAIL.format(self.bare_sep))", '_PATH_TRAIL', "FORCEWIN: trailing separators no longer tolerated"),
+    V('b-wrapper-dotall', 'break', ['C01'], P, "pattern = Rf'^(?s{case_flag}:{\"\".join(result)})$'", "pattern = Rf'^(?{case_flag}:{\"\".join(result)})$'", 'wrapper', "fnmatch('\\n', '?') becomes False"),
+    V('b-case-flag', 'break', ['C01', 'C17'], P, "case_flag = 'i' if not self.case_sensitive else ''", "case_flag = 'i' if self.case_sensitive else ''", 'wrapper', "fnmatch('A', 'a', CASE) becomes True"),
+    # ---------------------------------------------------------------- C01 other rules
+    V('b-swap-ext-arms', 'break', ['C01', 'C08'], P, "            if list_type == '?':\n                current.append((_QMARK_CAPTURE_GROUP if self.capture else _QMARK_GROUP)", "            if list_type == '?':\n                current.append((_CAPTURE_GROUP if self.capture else _GROUP)", "arm[?]", "fnmatch('b', '?(a)b', E) becomes False"),
+    V('b-posix-upper', 'break', ['C01', 'C18'], X, '    "upper": "\\x41-\\x5a",\n    "word": "\\x30-\\x39\\x41-\\x5a\\x5f\\x61-\\x7a",\n    "xdigit": "\\x30-\\x39\\x41-\\x46\\x61-\\x66"\n}\n\nascii', '    "upper": "\\x41-\\x59",\n    "word": "\\x30-\\x39\\x41-\\x5a\\x5f\\x61-\\x7a",\n    "xdigit": "\\x30-\\x39\\x41-\\x46\\x61-\\x66"\n}\n\nascii', 'unicode_posix_properties[upper]', "fnmatch('Z', '[[:upper:]]') becomes False (str only)"),
+    V('b-raw-char', 'break', ['C01'], P, "            else:\n                current.append(re.escape(c))\n\n            self.update_dir_state()\n\n        self.clean_up_inverse(current)", "            else:\n                current.append(c)\n\n            self.update_dir_state()\n\n        self.clean_up_inverse(current)", 'emit', "fnmatch('aab', 'a+b') becomes True"),
+    V('b-match-not-fullmatch', 'break', ['C01', 'C04', 'C05'], G, "            matcher = target.fullmatch", "            matcher = target.match", '_get_matcher', "glob('[a]') returns a file named 'a\\n' (regression of the repaired F6)"),
+    V('b-exclude-search', 'break', ['C01', 'C04'], M, "                for pattern in self.exclude:\n                    if pattern.fullmatch(self.filename):", "                for pattern in self.exclude:\n                    if pattern.match(self.filename):", 'pattern.match', "fnmatch('a\\n', '*', exclude='a') becomes False"),
+    V('b-posix-limit-ascii', 'break', ['C01', 'C18'], P, "result.append(posix.get_posix_property(m.group(1), self.is_bytes))", "result.append(posix.get_posix_property(m.group(1)))", 'limit_ascii', "bytes pattern [[:^alpha:]] embeds code points > 255"),
+    # ---------------------------------------------------------------- C02
+    V('b-star-pathname-guard', 'break', ['C02'], P, "        if self.pathname:\n            if self.after_start and not self.dot:\n                star = self.path_star_dot2", "        if self.pathname and self.extend:\n            if self.after_start and not self.dot:\n                star = self.path_star_dot2", '_STAR', "globmatch('a/b', '*') becomes True without EXTGLOB"),
+    V('b-qmark-unrestricted', 'break', ['C02', 'C03'], P, "                current.append(self._restrict_sequence() + _QMARK)\n            elif c == '/':\n                if self.pathname:\n                    self.set_start_dir()", "                current.append(_QMARK)\n            elif c == '/':\n                if self.pathname:\n                    self.set_start_dir()", '_QMARK', "globmatch('a/b', 'a?b') becomes True"),
+    V('b-no-set-start-dir', 'break', ['C02', 'C03'], P, "                if self.pathname:\n                    self.set_start_dir()\n                    self.clean_up_inverse(current)", "                if self.pathname:\n                    self.clean_up_inverse(current)", 'sep-run', "globmatch('a/.b', 'a/*') becomes True"),
+    V('b-no-consume-sep', 'break', ['C02'], P, "                    current.append(self.sep + _ONE_OR_MORE)\n                    self.consume_path_sep(i)\n                    self.matchbase = False", "                    current.append(self.sep + _ONE_OR_MORE)\n                    self.matchbase = False", 'sep-run', "globmatch('a/b', 'a//b') becomes False"),
+    V('b-matchbase-not-cleared', 'break', ['C02'], P, "                    current.append(self.sep + _ONE_OR_MORE)\n                    self.consume_path_sep(i)\n                    self.matchbase = False", "                    current.append(self.sep + _ONE_OR_MORE)\n                    self.consume_path_sep(i)", 'sep-run', "globmatch('x/a/b', 'a/b', MATCHBASE) becomes True"),
+    V('b-sequence-no-abort', 'break', ['C02', 'C07'], P, "            elif c == '/':\n                if self.pathname:\n                    raise StopIteration\n                value = c", "            elif c == '/':\n                value = c", 'abort-on-slash', "globmatch('a/b', 'a[/]b') becomes True"),
+    V('b-globstar-pred', 'break', ['C02', 'C05'], P, "self.globstar = self.pathname and (self.globstarlong or bool(flags & GLOBSTAR))", "self.globstar = self.globstarlong or bool(flags & GLOBSTAR)", 'self.globstar', "fnmatch-mode `**` handling changes; definite assignment of `capture` breaks"),
+    V('b-matchbase-prefix', 'break', ['C02', 'C16'], P, "        if p and (self.matchbase or self.extmatchbase):\n            result = prepend + result", "        if p and self.matchbase:\n            result = prepend + result", 'implicit-prefix', "PurePath('a/b/x').match('x') becomes False"),
+    V('b-nodir-unix-select', 'break', ['C02', 'C08'], P, "negative.append(_NO_NIX_DIR[index] if is_unix else _NO_WIN_DIR[index])", "negative.append(_NO_WIN_DIR[index] if is_unix else _NO_NIX_DIR[index])", 'nodir-tail', "translate(NODIR) returns the windows regex on Linux"),
+    V('b-flag-transform-pathname', 'break', ['C02', 'C04', 'C17'], G, "    flags = (flags & FLAG_MASK) | _PATHNAME\n    if flags & REALPATH:", "    flags = (flags & FLAG_MASK)\n    if flags & REALPATH:", 'PATHNAME-forced', "glob.globmatch('a/b', '*') becomes True"),
+    V('b-globfilter-no-transform', 'break', ['C02', 'C04', 'C17'], G, "    return _wcparse.compile(patterns, _flag_transform(flags), limit, exclude).filter(filenames, root_dir, dir_fd)", "    return _wcparse.compile(patterns, flags | _PATHNAME, limit, exclude).filter(filenames, root_dir, dir_fd)", 'globfilter', "globfilter(..., FORCEWIN|FORCEUNIX) no longer cancels"),
+    # ---------------------------------------------------------------- C03
+    V('b-restrict-dot-inverted', 'break', ['C02', 'C03'], P, "            value = self.seq_path_dot if self.after_start and not self.dot else self.seq_path", "            value = self.seq_path_dot if self.after_start and self.dot else self.seq_path", '_restrict_sequence', "globmatch('.a', '?a') becomes True"),
+    V('b-star-dot-table', 'break', ['C03'], P, "            elif self.after_start:\n                star = self.path_star_dot1\n                globstar = self.path_gstar_dot1", "            elif self.after_start:\n                star = self.path_star\n                globstar = self.path_gstar_dot1", 'star-selection', "globmatch('..', '*', DOTGLOB) becomes True"),
+    V('b-exclude-no-dotmatch', 'break', ['C03', 'C07', 'C13', 'C04'], P, "negative = compile_pattern(exclude, flags=flags | DOTMATCH | _NO_GLOBSTAR_CAPTURE, limit=limit)[0]", "negative = compile_pattern(exclude, flags=flags | _NO_GLOBSTAR_CAPTURE, limit=limit)[0]", 'compile_pattern(exclude)', "filter(['.a','b'], '*', flags=D, exclude='*') returns ['.a']"),
+    V('b-inline-negate-no-dotmatch', 'break', ['C03', 'C07'], P, "negative.append(_compile(expanded[1:], flags | _NO_GLOBSTAR_CAPTURE | DOTMATCH))", "negative.append(_compile(expanded[1:], flags | _NO_GLOBSTAR_CAPTURE))", '_compile(expanded[1:])', "fnmatch('.a', ['.*','!*'], N) becomes True"),
+    V('b-glob-negate-flags', 'break', ['C03', 'C13'], G, "self.negate_flags = self.flags | DOTMATCH | _wcparse._NO_GLOBSTAR_CAPTURE", "self.negate_flags = self.flags | _wcparse._NO_GLOBSTAR_CAPTURE", 'negate_flags', "glob('.*', exclude='*') keeps dot files"),
+    V('b-walker-hidden', 'break', ['C03', 'C05', 'C06'], G, "            if deep and not hidden and is_dir and follow:", "            if deep and is_dir and follow:", 'descent', "glob('**', G) lists .git/ contents"),
+    V('b-nodotdir-default', 'break', ['C03', 'C05'], G, "        if not self.scandotdir and not self.flags & NODOTDIR:\n            self.flags |= NODOTDIR", "        if self.scandotdir and not self.flags & NODOTDIR:\n            self.flags |= NODOTDIR", 'NODOTDIR-default', "glob('.*') returns `.` and `..`"),
+    V('b-update-dir-state', 'break', ['C03'], P, "        if self.dir_start and not self.after_start:\n            self.set_after_start()\n        elif not self.dir_start and self.after_start:\n            self.reset_dir_track()", "        if self.dir_start and not self.after_start:\n            self.set_after_start()", 'update_dir_state', "fnmatch('a.b', 'a?b')... every later token is treated as segment start"),
+    V('b-alt-rearm', 'break', ['C03'], P, "                    if temp_after_start:\n                        self.set_start_dir()", "                    if temp_after_start and not self.dot:\n                        self.reset_dir_track()", 'alternative-re-arms-START', "fnmatch('.b', '@(a|*)', E) becomes True"),
+    # ---------------------------------------------------------------- C04 / C05 / C06 / C12 / C13
+    V('b-platform-twin', 'break', ['C04', 'C12', 'C16'], G, "            self.re_no_dir = (_wcparse.RE_WIN_NO_DIR if forcewin else _wcparse.RE_NO_DIR)[ptype]  # type: ignore[assignment]", "            self.re_no_dir = _wcparse.RE_WIN_NO_DIR[ptype]  # type: ignore[assignment]", 'RE_WIN_NO_DIR', "Linux: glob('*', NODIR) drops the file 'a\\\\' (regression of the repaired F5)"),
+    V('b-follow-rule', 'break', ['C04', 'C06'], P, "bool(flags & REALPATH), bool(flags & PATHNAME), bool(flags & FOLLOW) and not bool(flags & GLOBSTARLONG)", "bool(flags & REALPATH), bool(flags & PATHNAME), bool(flags & FOLLOW)", 'WcRegexp-arguments', "globmatch('link/x', '**', G|L|GL, REALPATH) differs from glob"),
+    V('b-root-ignored', 'break', ['C04', 'C12'], M, "                exists = os.path.lexists(os.path.join(root, self.filename))", "                exists = os.path.lexists(self.filename)", 'lexists', "globmatch('f', '*', REALPATH, root_dir='sub') looks in the cwd"),
+    V('b-exists-gate', 'break', ['C04'], M, "            if exists:\n                symlinks = {}", "            if exists or is_abs:\n                symlinks = {}", 'match_real-under-exists', "globmatch('/nope', '/*', REALPATH) becomes True"),
+    V('b-glob-dir-slash', 'break', ['C04', 'C12', 'C13'], G, "        if is_dir and not filename.endswith(self.sep):\n            filename += self.sep", "        if is_dir and filename.endswith(self.sep):\n            filename += self.sep", 'dir-slash', "glob('*', exclude='d/') keeps the directory d"),
+    V('b-no-negate-glob', 'break', ['C04', 'C07'], G, "        if epats is not None:\n            flags = _wcparse.no_negate_flags(flags)", "        if epats is not None and flags & NEGATEALL:\n            flags = _wcparse.no_negate_flags(flags)", 'no_negate_flags', "glob('!x', flags=NEGATE, exclude='y') treats !x as an exclusion"),
+    V('b-literal-fold', 'break', ['C05', 'C17'], G, "            if not self.case_sensitive:\n                match = target.lower()", "            if self.case_sensitive:\n                match = target.lower()", 'prefold', "glob('ReadMe', IGNORECASE) finds nothing"),
+    V('b-follow-true', 'break', ['C06'], G, "            follow = not is_link or self.follow_links or globstar_follow", "            follow = not is_link or self.follow_links or globstar_follow or not hidden", 'follow-definition', "glob('**', G) loops through a symlink cycle"),
+    V('b-glob-follow-links', 'break', ['C06', 'C04'], G, "self.follow_links = bool(self.flags & FOLLOW) and not self.globstarlong", "self.follow_links = bool(self.flags & FOLLOW)", 'follow_links', "glob('**', G|L|GL) traverses symlinked directories"),
+    V('b-fsmatch-last-part', 'break', ['C06'], M, "                                if not at_end or (at_end and j != last_part):", "                                if not at_end and j != last_part:", 'which-parts', "globmatch('link/x/y', '**/y', G, REALPATH) misses the symlink"),
+    V('b-wcmatch-followlinks', 'break', ['C06', 'C14'], W, "os.walk(self._root_dir, followlinks=self.follow_links)", "os.walk(self._root_dir, followlinks=True)", 'followlinks', "WcMatch without SYMLINKS follows a symlink cycle"),
+    V('b-iglob-forward', 'break', ['C12'], G, "    return list(iglob(patterns, flags=flags, root_dir=root_dir, dir_fd=dir_fd, limit=limit, exclude=exclude))", "    return list(iglob(patterns, flags=flags, root_dir=root_dir, limit=limit, exclude=exclude))", 'forwards-all', "glob('*', dir_fd=fd) ignores dir_fd"),
+    V('b-format-path-mark', 'break', ['C12'], G, "path = os.path.join(path, self.empty) if dir_only or (self.mark and is_dir) else path", "path = os.path.join(path, self.empty) if dir_only or self.mark else path", '_format_path', "glob('*', MARK) marks files too"),
+    V('b-nodir-both-passes', 'break', ['C12'], G, "        if self.nodir and not force_negate:\n            self.npatterns.append(self.re_no_dir)", "        if self.nodir and force_negate:\n            self.npatterns.append(self.re_no_dir)", 'nodir-pattern', "glob('*', NODIR) returns directories unless exclude= is given"),
+    V('b-seen-unfolded', 'break', ['C13', 'C05'], G, "            self.seen.add(key)", "            self.seen.add(path)", '_is_unique', "glob(['*b','A*'], I) returns 'Ab' twice (regression of the repaired F4)"),
+    V('b-unfiltered-yield', 'break', ['C13', 'C16'], G, "                        for match, is_dir in results:\n                            if self._lexists(match) and not self._is_excluded(match, is_dir):", "                        for match, is_dir in results:\n                            if self._lexists(match):", 'yield', "glob('a', exclude='a') returns a"),
+    V('b-dedupe-guard', 'break', ['C13', 'C07', 'C16'], G, "                    if not self.nounique or is_neg:", "                    if not self.nounique and is_neg:", 'dedupe-guard', "glob(['a','a']) scans twice"),
+    V('b-auto-nounique', 'break', ['C13', 'C16'], G, "            len(self.pattern) <= 1 and", "            len(self.pattern) <= 2 and", 'auto-nounique', "glob(['a','[a]']) returns a twice"),
+    # ---------------------------------------------------------------- C07 / C09
+    V('b-is-negative-ext', 'break', ['C07', 'C09'], P, "        return bool(flags & NEGATE and pattern[0:1] in NEGATIVE_SYM and pattern[1:2] not in ROUND_BRACKET)", "        return bool(flags & NEGATE and pattern[0:1] in NEGATIVE_SYM)", 'is_negative', "fnmatch('x', '!(a)', N|E) becomes False"),
+    V('b-negateall-default', 'break', ['C07'], P, "            positive.append(_compile(default, flags | (GLOBSTAR if flags & PATHNAME else 0)))", "            positive.append(_compile(default, flags))", 'negateall-default', "globmatch('a/b', '!x', N|A) becomes False"),
+    V('b-exclude-loop', 'break', ['C07'], M, "        if matched:\n            matched = True\n            if self.exclude:\n                for pattern in self.exclude:\n                    if pattern.fullmatch(self.filename):\n                        matched = False\n                        break", "        if matched:\n            matched = True\n            if self.exclude:\n                for pattern in self.exclude:\n                    if pattern.fullmatch(self.filename):\n                        matched = False\n                    else:\n                        matched = True", 'loop[self.exclude]', "order of exclusion patterns matters"),
+    V('b-expand-order', 'break', ['C07'], P, "    for expanded in expand_braces(pattern, flags, limit):\n        for splitted in split(expanded, flags):\n            yield expand_tilde(splitted, is_unix_style(flags), flags)", "    for splitted in split(pattern, flags):\n        for expanded in expand_braces(splitted, flags, limit):\n            yield expand_tilde(expanded, is_unix_style(flags), flags)", 'nesting', "'{a|b,c}' with BRACE|SPLIT expands differently"),
+    V('b-scanner-prologue', 'break', ['C07'], G, "        if c in ('!', '^'):\n            c = next(i)\n        if c == '[':\n            # A POSIX class is a unit: its `]` does not close the sequence\n            i.match(_wcparse.RE_POSIX)", "        if c == '!':\n            c = next(i)\n        if c == '[':\n            # A POSIX class is a unit: its `]` does not close the sequence\n            i.match(_wcparse.RE_POSIX)", 'closing-bracket-agreement', "glob('[^]/]x') is split inside the bracket"),
+    V('b-escape-class', 'break', ['C09', 'C18'], P, "    re.compile(r'([-!~*?()\\[\\]|{}]|(?<!\\\\)(?:(?:[\\\\]{2})*)\\\\(?!\\\\))'),\n    re.compile(br'([-!~*?()\\[\\]|{}]|(?<!\\\\)(?:(?:[\\\\]{2})*)\\\\(?!\\\\))')\n)\n\nMAGIC_DEF", "    re.compile(r'([-!*?()\\[\\]|{}]|(?<!\\\\)(?:(?:[\\\\]{2})*)\\\\(?!\\\\))'),\n    re.compile(br'([-!~*?()\\[\\]|{}]|(?<!\\\\)(?:(?:[\\\\]{2})*)\\\\(?!\\\\))')\n)\n\nMAGIC_DEF", 'RE_MAGIC_ESCAPE', "escape('~') expands to the home directory under GLOBTILDE"),
+    V('b-magic-extmatch', 'break', ['C09'], P, "    if flags & EXTMATCH:\n        magic |= MAGIC_EXTMATCH[ptype]  # type: ignore[arg-type]", "    if flags & EXTMATCH and flags & BRACE:\n        magic |= MAGIC_EXTMATCH[ptype]  # type: ignore[arg-type]", '_get_magic_symbols', "is_magic('@(a)', E) becomes False"),
+    V('b-fnmatch-escape-path', 'break', ['C09'], F, "    return _wcparse.escape(pattern, pathname=False)", "    return _wcparse.escape(pattern)", 'fnmatch:escape', "fnmatch.escape('c:{a}') on Windows leaves braces"),
+    # ---------------------------------------------------------------- C10
+    V('b-lost-handler', 'break', ['C10'], P, "                try:\n                    current.append(self._sequence(i))\n                except StopIteration:\n                    i.rewind(i.index - index)\n                    current.append(re.escape(c))", "                current.append(self._sequence(i))", 'no-internal-exception-escapes', "fnmatch('x', '[a') raises RuntimeError/StopIteration"),
+    V('b-dot-exception-escape', 'break', ['C10'], P, "                    current.append(value)\n                except DotException:\n                    continue\n                except StopIteration:", "                    current.append(value)\n                except StopIteration:", 'no-internal-exception-escapes', "fnmatch('.', '\\\\.') raises DotException"),
+    V('b-rewind-amount', 'break', ['C10'], P, "                except StopIteration:\n                    i.rewind(i.index - index)\n                    current.append(re.escape(c))", "                except StopIteration:\n                    i.rewind(1)\n                    current.append(re.escape(c))", 'recover', "fnmatch('[ab', '[ab') becomes False"),
+    V('b-range-check', 'break', ['C10'], P, "        if v2 < v1:\n            result.pop()", "        if v2 <= v1:\n            result.pop()", '_sequence_range_check', "fnmatch('a', '[a-a]') becomes False"),
+    V('b-unbound-local', 'break', ['C10'], P, "            capture = self.globstar_capture\n        else:", "            if self.realpath:\n                capture = self.globstar_capture\n        else:", 'possibly-unbound', "globmatch('a', '**', G) raises UnboundLocalError"),
+    V('b-new-keyerror', 'break', ['C10'], P, "    if isinstance(patterns, (str, bytes)):\n        yield patterns\n    else:\n        yield from patterns", "    if isinstance(patterns, (str, bytes)):\n        yield patterns\n    elif isinstance(patterns, dict):\n        raise KeyError('mapping')\n    else:\n        yield from patterns", 'documented-errors-only', "an undocumented KeyError escapes fnmatch()"),
+    # ---------------------------------------------------------------- C11
+    V('b-limit-default', 'break', ['C11'], G, "def globfilter(\n    filenames: Iterable[AnyStr | os.PathLike[AnyStr]],\n    patterns: AnyStr | Sequence[AnyStr],\n    *,\n    flags: int = 0,\n    root_dir: AnyStr | os.PathLike[AnyStr] | None = None,\n    dir_fd: int | None = None,\n    limit: int = _wcparse.PATTERN_LIMIT,", "def globfilter(\n    filenames: Iterable[AnyStr | os.PathLike[AnyStr]],\n    patterns: AnyStr | Sequence[AnyStr],\n    *,\n    flags: int = 0,\n    root_dir: AnyStr | os.PathLike[AnyStr] | None = None,\n    dir_fd: int | None = None,\n    limit: int = 100,", 'limit-default', "globfilter(names, '{1..200}', BRACE) raises"),
+    V('b-limit-dropped', 'break', ['C11'], L, "        yield from self.glob(patterns, flags=flags | _EXTMATCHBASE, limit=limit, exclude=exclude)", "        yield from self.glob(patterns, flags=flags | _EXTMATCHBASE, exclude=exclude)", 'Path.rglob', "Path.rglob('{1..2000}', BRACE, limit=0) raises"),
+    V('b-limit-full-budget', 'break', ['C11'], P, "            for expanded in expand(pattern, flags, current_limit):\n                count += 1\n                total += 1\n                if 0 < limit < total:\n                    raise PatternLimitException(f\"Pattern limit exceeded the limit of {limit:d}\")\n                if expanded not in seen:\n                    seen.add(expanded)\n                    if is_negative(expanded, flags):\n                        negative.append(_compile(", "            for expanded in expand(pattern, flags, limit):\n                count += 1\n                total += 1\n                if 0 < limit < total:\n                    raise PatternLimitException(f\"Pattern limit exceeded the limit of {limit:d}\")\n                if expanded not in seen:\n                    seen.add(expanded)\n                    if is_negative(expanded, flags):\n                        negative.append(_compile(", 'expand-gets-remaining-budget', "['{1..5}','{1..100000000}'] with limit=10 materialises"),
+    V('b-limit-clamp', 'break', ['C11'], G, "                    self.current_limit -= count\n                    if self.current_limit < 1:\n                        self.current_limit = 1", "                    self.current_limit -= count", 'current_limit -= count', "budget reaches 0 = unlimited"),
+    V('b-limit-total-reset', 'break', ['C11'], G, "        seen = set()\n        try:\n            for p in patterns:", "        seen = set()\n        try:\n            self.total = 0\n            for p in patterns:", 'total-restarts-per-pass', "glob(['a','b','c'], limit=3, exclude=['x','y','z']) no longer raises (regression of F3)"),
+    V('b-limit-convert', 'break', ['C11'], P, "            except bracex.ExpansionLimitException:  # noqa: PERF203\n                raise\n            except Exception:  # pragma: no cover", "            except Exception:  # pragma: no cover", 'limit-exception-reraised', "'{1..100000000}' is silently yielded unexpanded"),
+    # ---------------------------------------------------------------- C14 / C15
+    V('b-wc-forced-flags', 'break', ['C14'], W, "        self.flags |= _NEGATE | _DOTMATCH | _NEGATEALL | _SPLIT", "        self.flags |= _NEGATE | _NEGATEALL | _SPLIT", '_parse_flags', "WcMatch('.', '*.txt', HIDDEN) misses .a.txt"),
+    V('b-wc-matchbase-mask', 'break', ['C14', 'C10'], W, "        self.flags = self.flags & (_wcparse.FLAG_MASK ^ MATCHBASE)", "        self.flags = self.flags & _wcparse.FLAG_MASK", '_parse_flags|possibly-unbound', "MATCHBASE reaches the parser without PATHNAME"),
+    V('b-wc-skip-count', 'break', ['C14', 'C15'], W, "                    else:\n                        self._skipped += 1\n                        value = self.on_skip(base, name)", "                    else:\n                        value = self.on_skip(base, name)\n                        if value is None:\n                            self._skipped += 1", 'file-loop-routing', "get_skipped() undercounts when on_skip returns a value"),
+    V('b-wc-hidden', 'break', ['C14'], W, "        if valid and (not self.show_hidden and util.is_hidden(fullpath)):\n            valid = False\n        return self.on_validate_file(base, name) if valid else valid", "        if valid and (self.show_hidden and util.is_hidden(fullpath)):\n            valid = False\n        return self.on_validate_file(base, name) if valid else valid", '_valid_file', "hidden files are returned without HIDDEN"),
+    V('b-wc-prune-rebind', 'break', ['C14'], W, "                    if not self._valid_folder(base, name):\n                        dirs.remove(name)", "                    if not self._valid_folder(base, name):\n                        dirs = [d for d in dirs if d != name]", 'rebound', "excluded folders are still descended"),
+    V('b-wc-file-pathname', 'break', ['C14'], W, "                self.file_check = self._compile_wildcard(file_pattern, self.file_pathname)", "                self.file_check = self._compile_wildcard(file_pattern, self.dir_pathname)", 'pathname-arguments', "FILEPATHNAME is ignored for the file pattern"),
+    V('b-kill-poll', 'break', ['C15'], W, "                        if value is not None:\n                            yield value\n\n                    if self.is_aborted():\n                        break", "                        if value is not None:\n                            yield value", 'loop[files]', "after kill() the rest of the directory is still yielded"),
+    V('b-kill-poll-dirs', 'break', ['C15'], W, "                if self.is_aborted():  # pragma: no cover\n                    break", "                if self.is_aborted() and not dirs:  # pragma: no cover\n                    continue", 'loop[dirs[:]]', "kill() from on_validate_directory does not stop the pruning loop"),
+    V('b-abort-cleared', 'break', ['C15'], W, "        self.on_reset()\n        self._skipped = 0", "        self.on_reset()\n        self._abort = False\n        self._skipped = 0", '_abort-writers', "kill() before match() is lost"),
+    V('b-no-reset-skipped', 'break', ['C15', 'C14'], W, "        self.on_reset()\n        self._skipped = 0\n        for f in self._walk():", "        self.on_reset()\n        for f in self._walk():", 'prologue|_skipped-writers', "second match() continues the skipped counter"),
+    V('b-hook-value', 'break', ['C15'], W, "                        yield self.on_match(base, name)", "                        yield os.path.join(base, name)", 'yield', "on_match overrides are ignored"),
+    # ---------------------------------------------------------------- C16 / C17
+    V('b-pathlib-match', 'break', ['C16'], L, "        return self.globmatch(patterns, flags=flags | _EXTMATCHBASE, limit=limit, exclude=exclude)", "        return self.globmatch(patterns, flags=flags, limit=limit, exclude=exclude)", 'PurePath.match', "PurePath('a/b').match('b') becomes False"),
+    V('b-pathlib-noabs', 'break', ['C16'], L, "                flags | _NOABSOLUTE\n            ) | ((_PATHLIB | SCANDOTDIR) if scandotdir else _PATHLIB)", "                flags\n            ) | ((_PATHLIB | SCANDOTDIR) if scandotdir else _PATHLIB)", 'Path.glob/flags', "Path('.').glob('/etc/*') no longer raises"),
+    V('b-pathlib-platform', 'break', ['C16'], L, "        elif isinstance(self, PurePosixPath):\n            if flags & _FORCEWIN:\n                raise ValueError(\"Posix pathlike objects cannot be forced to behave like a Windows path\")\n            flags |= _FORCEUNIX", "        elif isinstance(self, PurePosixPath):\n            flags |= _FORCEUNIX", '_translate_flags', "PurePosixPath.globmatch(REALPATH) on Windows no longer raises"),
+    V('b-noabs-root', 'break', ['C16'], P, "        if self.no_abs and root_specified:\n            raise ValueError('The pattern must be a relative path pattern')", "        if self.no_abs and root_specified and self.realpath:\n            raise ValueError('The pattern must be a relative path pattern')", 'absolute-rejected', "PurePath('x').match('/x') no longer raises"),
+    V('b-translate-path', 'break', ['C16'], L, "        if isinstance(self, Path) and name and self.is_dir():", "        if isinstance(self, Path) and self.is_dir():", '_translate_path', "Path('').globmatch(...) gets a bare separator"),
+    V('b-get-case', 'break', ['C17'], P, "    if not bool(flags & CASE_FLAGS):\n        case_sensitive = is_case_sensitive(flags)\n    elif flags & CASE:\n        case_sensitive = True", "    if not bool(flags & CASE_FLAGS):\n        case_sensitive = is_case_sensitive(flags)\n    elif flags & IGNORECASE:\n        case_sensitive = False\n    elif flags & CASE:\n        case_sensitive = True", 'get_case', "CASE|IGNORECASE becomes insensitive"),
+    V('b-unix-style', 'break', ['C17'], P, "            (not bool(flags & REALPATH) and bool(flags & FORCEUNIX))", "            bool(flags & FORCEUNIX)", 'is_unix_style', "REALPATH|FORCEUNIX on Windows picks unix rules"),
+    V('b-cancel-fnmatch', 'break', ['C17'], F, "    if flags & FORCEUNIX and flags & FORCEWIN:\n        flags ^= FORCEWIN | FORCEUNIX", "    if flags & FORCEUNIX and flags & FORCEWIN:\n        flags ^= FORCEWIN", 'fnmatch:_flag_transform', "FORCEWIN|FORCEUNIX behaves as FORCEUNIX"),
+    V('b-escape-drive-case', 'break', ['C17'], P, "    return f'(?i:{re.escape(drive)})' if case else re.escape(drive)", "    return f'(?i:{re.escape(drive)})' if not case else re.escape(drive)", 'escape_drive', "drive letters compare case-sensitively under CASE"),
+    V('b-bslash-abort', 'break', ['C17'], P, "            self.bslash_abort = self.pathname\n            sep = {\"sep\": re.escape('\\\\/')}", "            self.bslash_abort = True\n            sep = {\"sep\": re.escape('\\\\/')}", 'windows-only-switches', "fnmatch (name mode) FORCEWIN treats an escaped backslash as a path separator"),
+    # ---------------------------------------------------------------- C18 / C19 / C20
+    V('b-twin-bytes-half', 'break', ['C18', 'C09'], P, "RE_MAGIC = (\n    re.compile(r'([-!~*?(\\[|{\\\\])'),\n    re.compile(br'([-!~*?(\\[|{\\\\])')\n)", "RE_MAGIC = (\n    re.compile(r'([-!~*?(\\[|{\\\\])'),\n    re.compile(br'([-!*?(\\[|{\\\\])')\n)", 'RE_MAGIC', "bytes and str variants disagree"),
+    V('b-twin-index', 'break', ['C18'], P, "    if isinstance(pattern, bytes):\n        ptype = util.BYTES\n    else:\n        ptype = util.UNICODE\n\n    drive_pat = RE_WIN_DRIVE[ptype]", "    if isinstance(pattern, bytes):\n        ptype = util.UNICODE\n    else:\n        ptype = util.UNICODE\n\n    drive_pat = RE_WIN_DRIVE[ptype]", 'RE_WIN_DRIVE[ptype]', "is_magic(b'c:/x', FORCEWIN) raises TypeError"),
+    V('b-latin1-codec', 'break', ['C18'], P, "            pattern = self._parse(self.pattern.decode('latin-1')).encode('latin-1')", "            pattern = self._parse(self.pattern.decode('latin-1')).encode('utf-8')", 'codec', "fnmatch(b'\\xe9', b'\\xe9') becomes False"),
+    V('b-literal-twin', 'break', ['C18'], P, "        replace = br'\\\\\\1'\n        slash = b'\\\\'", "        replace = br'\\\\\\1'\n        slash = b'/'", 'slash', "escape(b'a\\\\b') differs from escape('a\\\\b')"),
+    V('b-module-cache', 'break', ['C19'], P, "def is_case_sensitive(flags: int) -> bool:\n    \"\"\"Is case sensitive.\"\"\"\n", "_CASE_MEMO = {}  # type: dict[int, bool]\n\n\ndef is_case_sensitive(flags: int) -> bool:\n    \"\"\"Is case sensitive.\"\"\"\n\n    if flags in _CASE_MEMO:\n        return _CASE_MEMO[flags]\n    _CASE_MEMO[flags] = bool(flags & FORCEUNIX)\n", 'module-state-writes', "results depend on call history"),
+    V('b-cache-untyped', 'break', ['C19'], P, "@functools.lru_cache(maxsize=256, typed=True)", "@functools.lru_cache(maxsize=256)", '_compile/decorator', "cache key no longer separates argument types"),
+    V('b-cache-ambient', 'break', ['C19'], P, "    return re.compile(WcParse(pattern, flags & FLAG_MASK).parse())", "    return re.compile(WcParse(pattern, (flags | (FORCEWIN if os.sep == '\\\\' else 0)) & FLAG_MASK).parse())", '_compile', "cached value depends on ambient os.sep"),
+    V('b-shared-parser', 'break', ['C19'], P, "    if flags & SPLIT:\n        yield from WcSplit(pattern, flags).split()", "    if flags & SPLIT:\n        split.cache = WcSplit(pattern, flags)\n        yield from split.cache.split()", 'WcSplit()', "a splitter object is shared between calls"),
+    V('b-eq-field', 'break', ['C19'], M, "            self._path == other._path and\n            self._follow == other._follow\n        )", "            self._path == other._path\n        )", '__eq__', "FOLLOW and non-FOLLOW matchers compare equal"),
+    V('b-pickle-field', 'break', ['C19'], M, "copyreg.pickle(WcRegexp, lambda p: (WcRegexp, (p._include, p._exclude, p._real, p._path, p._follow)))", "copyreg.pickle(WcRegexp, lambda p: (WcRegexp, (p._include, p._exclude, p._real, p._path)))", 'copyreg.pickle(WcRegexp)', "an unpickled FOLLOW matcher loses FOLLOW"),
+    V('b-norm-swap', 'break', ['C20'], U, "    (\\\\[^NUux]) |\n    (\\\\[NUux])\n    '''\n)\n\nRE_BNORM", "    (\\\\[NUux]) |\n    (\\\\[^NUux])\n    '''\n)\n\nRE_BNORM", 'RE_NORM/roles', "`\\q` raises SyntaxError under RAWCHARS"),
+    V('b-norm-group-index', 'break', ['C20'], U, "        elif not is_raw_chars or m.group(5 if is_bytes else 6):", "        elif not is_raw_chars or m.group(6):", 'norm_pattern.norm', "bytes `\\q` raises SyntaxError under RAWCHARS"),
+    V('b-norm-unguarded', 'break', ['C20'], U, "        elif is_raw_chars and m.group(4):", "        elif m.group(4):", 'norm_pattern.norm', "`\\101` is decoded without RAWCHARS on FORCEWIN"),
+    V('b-translation-table', 'break', ['C20', 'C10'], U, "    r\"\\v\": '\\v',\n    r\"\\\\\": r'\\\\',\n    br\"\\a\"", "    r\"\\v\": '\\t',\n    r\"\\\\\": r'\\\\',\n    br\"\\a\"", 'BACK_SLASH_TRANSLATION', "`\\v` decodes to a tab"),
+    V('b-norm-after-expand', 'break', ['C20', 'C17'], P, "            pattern = util.norm_pattern(pattern, not is_unix, bool(flags & RAWCHARS))\n            count = 0\n            for expanded in expand(pattern, flags, current_limit):\n                count += 1\n                total += 1\n                if 0 < limit < total:\n                    raise PatternLimitException(f\"Pattern limit exceeded the limit of {limit:d}\")\n                if expanded not in seen:\n                    seen.add(expanded)\n                    if is_negative(expanded, flags):\n                        negative.append(WcParse(", "            pattern = util.norm_pattern(pattern, not is_unix, bool(flags & NEGATE))\n            count = 0\n            for expanded in expand(pattern, flags, current_limit):\n                count += 1\n                total += 1\n                if 0 < limit < total:\n                    raise PatternLimitException(f\"Pattern limit exceeded the limit of {limit:d}\")\n                if expanded not in seen:\n                    seen.add(expanded)\n                    if is_negative(expanded, flags):\n                        negative.append(WcParse(", 'expand-argument', "translate() decodes escapes under NEGATE instead of RAWCHARS"),
+
+    # ================================================================ neutral variants (must stay silent)
+    V('n-star-greedy', 'neutral', [], P, "_STAR = r'.*?'", "_STAR = r'(?:.)*'", witness='same language'),
+    V('n-path-star-group', 'neutral', [], P, "_PATH_STAR = r'[^{sep}]*?'", "_PATH_STAR = r'(?:[^{sep}])*?'"),
+    V('n-no-dot-class', 'neutral', [], P, "_NO_DOT = r'(?![.])'", "_NO_DOT = r'(?!\\.)'"),
+    V('n-qmark-group', 'neutral', [], P, "_QMARK_GROUP = r'(?:{})?'", "_QMARK_GROUP = r'(?:{}){{0,1}}'"),
+    V('n-gstar-order', 'neutral', [], P, "_PATH_GSTAR_NO_DOTMATCH = r'(?:(?!(?:[{sep}]|^)\\.).)*?'", "_PATH_GSTAR_NO_DOTMATCH = r'(?:(?!(?:^|[{sep}])\\.).)*?'"),
+    V('n-rename-local', 'neutral', [], P, "    magical = False\n    unix = is_unix_style(flags)", "    magical = False\n    unix = is_unix_style(flags)\n    _unused = None"),
+    V('n-nested-if', 'neutral', [], G, "            if deep and not hidden and is_dir and follow:\n                yield from self._glob_dir(path, matcher, dir_only, deep, globstar_follow)", "            if deep and not hidden:\n                if is_dir and follow:\n                    yield from self._glob_dir(path, matcher, dir_only, deep, globstar_follow)"),
+    V('n-reorder-conjuncts', 'neutral', [], G, "            not force_negate and\n            len(self.pattern) <= 1 and", "            len(self.pattern) <= 1 and\n            not force_negate and"),
+    V('n-line-shift', 'neutral', [], P, '"""Wildcard parsing."""\n', '"""Wildcard parsing."""\n\n# a comment that shifts every line number\n\n'),
+    V('n-line-shift-glob', 'neutral', [], G, 'from __future__ import annotations\nimport os\nimport sys', '# shifted\n# shifted\nfrom __future__ import annotations\nimport os\nimport sys'),
+    V('n-literal-limit', 'neutral', [], F, "def fnmatch(\n    filename: AnyStr,\n    patterns: AnyStr | Sequence[AnyStr],\n    *,\n    flags: int = 0,\n    limit: int = _wcparse.PATTERN_LIMIT,", "def fnmatch(\n    filename: AnyStr,\n    patterns: AnyStr | Sequence[AnyStr],\n    *,\n    flags: int = 0,\n    limit: int = 1000,"),
+    V('n-extract-local', 'neutral', [], G, "        return bool(self.npatterns and self._match_excluded(path, is_dir))", "        has_patterns = self.npatterns\n        return bool(has_patterns and self._match_excluded(path, is_dir))"),
+    V('n-docstring', 'neutral', [], W, '        """Start search for valid files."""\n', '        """Start the search for valid files (walks the tree top-down)."""\n'),
+    V('n-posix-hex-case', 'neutral', [], X, '    "digit": "\\x30-\\x39",\n    "graph": "\\x21-\\x5c\\x7e",\n    "lower": "\\x61-\\x7a",\n    "print": "\\x20-\\x5c\\x7e",\n    "punct": "\\x21-\\x2f\\x3a-\\x40\\x5c\\x5b-\\x60\\x7b-\\x5c\\x7e",\n    "space": "\\x09-\\x0d\\x20",\n    "upper": "\\x41-\\x5a",\n    "word": "\\x30-\\x39\\x41-\\x5a\\x5f\\x61-\\x7a",\n    "xdigit": "\\x30-\\x39\\x41-\\x46\\x61-\\x66"\n}\n\nascii', '    "digit": "0-9",\n    "graph": "\\x21-\\x5c\\x7e",\n    "lower": "a-z",\n    "print": "\\x20-\\x5c\\x7e",\n    "punct": "\\x21-\\x2f\\x3a-\\x40\\x5c\\x5b-\\x60\\x7b-\\x5c\\x7e",\n    "space": "\\x09-\\x0d\\x20",\n    "upper": "\\x41-\\x5a",\n    "word": "\\x30-\\x39\\x41-\\x5a\\x5f\\x61-\\x7a",\n    "xdigit": "\\x30-\\x39\\x41-\\x46\\x61-\\x66"\n}\n\nascii'),
+    V('n-flag-or-order', 'neutral', [], P, "negative = translate(exclude, flags=flags | DOTMATCH | _NO_GLOBSTAR_CAPTURE, limit=limit)[0]", "negative = translate(exclude, flags=_NO_GLOBSTAR_CAPTURE | flags | DOTMATCH, limit=limit)[0]"),
+    V('n-is-negative-slice', 'neutral', [], W, "        return self._abort\n", "        aborted = self._abort\n        return aborted\n"),
+    V('n-walk-comment', 'neutral', [], W, "            # Remove child folders based on exclude rules\n", "            # Prune child folders (in place) according to the exclude rules\n"),
+    V('n-glob-escape-kw', 'neutral', [], P, "    if flags & MINUSNEGATE:\n        return bool(flags & NEGATE and pattern[0:1] in MINUS_NEGATIVE_SYM)", "    if flags & MINUSNEGATE:\n        return bool(pattern[0:1] in MINUS_NEGATIVE_SYM and flags & NEGATE)"),
+    V('n-unix-style-bool', 'neutral', [], P, "        not flags & FORCEWIN\n    )", "        not bool(flags & FORCEWIN)\n    )"),
+    V('n-eq-order', 'neutral', [], M, "            self._include == other._include and\n            self._exclude == other._exclude and", "            self._exclude == other._exclude and\n            self._include == other._include and"),
+]
+
+
+def _apply(root: str, v: Variant) -> str | None:
+    path = os.path.join(root, v.file)
+    with open(path, encoding='utf-8') as fh:
+        src = fh.read()
+    n = src.count(v.old)
+    if n != v.count:
+        return f'stale variant: `old` occurs {n} times (expected {v.count})'
+    new = src.replace(v.old, v.new)
+    try:
+        ast.parse(new)
+    except SyntaxError as e:
+        return f'variant does not parse: {e}'
+    with open(path, 'w', encoding='utf-8') as fh:
+        fh.write(new)
+    return None
+
+
+def _run_one(args: tuple) -> dict:
+    vid, props, repo_root = args
+    from .cli import run_property
+    v = next(x for x in VARIANTS if x.vid == vid)
+    tmp = tempfile.mkdtemp(prefix='wcverif-var-')
+    out: dict = {'vid': vid, 'kind': v.kind, 'results': {}, 'error': None}
+    try:
+        shutil.copytree(os.path.join(repo_root, 'wcmatch'), os.path.join(tmp, 'wcmatch'))
+        err = _apply(tmp, v)
+        if err:
+            out['error'] = err
+            return out
+        for p in props:
+            buf = io.StringIO()
+            with contextlib.redirect_stdout(buf):
+                rc = run_property(p, tmp, 'quick', 0, write_evidence=False, replay_dir=os.path.join(tmp, 'replay'))
+            text = buf.getvalue()
+            keys = [ln.split('construct: ', 1)[1].strip() for ln in text.splitlines() if 'construct: ' in ln]
+            out['results'][p] = {'rc': rc, 'keys': keys, 'tail': text.strip().splitlines()[-1] if text.strip() else ''}
+    finally:
+        shutil.rmtree(tmp, ignore_errors=True)
+    return out
+
+
+def run_variants(select: list[str] | None, props_filter: str | None, repo_root: str = '/repo', jobs: int = 16,
+                 verbose: bool = True) -> tuple[int, dict]:
+    from .registry import PROPERTIES
+    tasks = []
+    for v in VARIANTS:
+        if select and v.vid not in select:
+            continue
+        if v.kind == 'break':
+            props = [p for p in v.props if (props_filter is None or p == props_filter)]
+        else:
+            props = [props_filter] if props_filter else list(PROPERTIES)
+        if props:
+            tasks.append((v.vid, props, repo_root))
+    failures = []
+    stats = {'break': 0, 'neutral': 0, 'break_ok': 0, 'neutral_ok': 0, 'stale': 0}
+    with ProcessPoolExecutor(max_workers=jobs) as ex:
+        for res in ex.map(_run_one, tasks):
+            v = next(x for x in VARIANTS if x.vid == res['vid'])
+            stats[v.kind] += 1
+            if res['error']:
+                stats['stale'] += 1
+                failures.append(f"{v.vid}: {res['error']}")
+                continue
+            ok = True
+            for p, r in res['results'].items():
+                if v.kind == 'break':
+                    hit = r['rc'] == 1 and (not v.expect or any(e in k for k in r['keys'] for e in v.expect.split('|')))
+                    if not hit:
+                        ok = False
+                        failures.append(f"{v.vid}: {p} did not report the edited construct (rc={r['rc']}, keys={r['keys'][:3]}, {r['tail']})")
+                else:
+                    if r['rc'] != 0:
+                        ok = False
+                        failures.append(f"{v.vid}: {p} raised an alarm on a behaviour-preserving variant (rc={r['rc']}, keys={r['keys'][:3]}, {r['tail']})")
+            if ok:
+                stats[v.kind + '_ok'] += 1
+    if verbose:
+        for f in failures:
+            print('SELFTEST-FAIL', f)
+        print(f"self-test: {stats['break_ok']}/{stats['break']} breaking variants caught, {stats['neutral_ok']}/{stats['neutral']} "
+              f"neutral variants silent, {stats['stale']} stale")
+    return (0 if not failures else 2), stats
 
 
 def run_variants_for(prop: str, seed: int) -> int:
+    rc, stats = run_variants(None, prop)
+    if rc != 0:
+        print(f'ANALYSIS-ERROR: property={prop} the both-ways self-test of the checker failed (see SELFTEST-FAIL lines)')
+        return 2
+    # append the self-test coverage to the evidence file written by the quick pass
+    from .report import VERIF
+    path = os.path.join(VERIF, 'evidence', f'{prop}.json')
+    try:
+        with open(path, encoding='utf-8') as fh:
+            ev = json.load(fh)
+        ev['tier'] = 'thorough'
+        ev['coverage']['selftest'] = stats
+        ev['coverage']['explanation'] += ('; thorough tier: both-ways self-test of the rules on scratch copies (breaking variants must be '
+                                          'reported with the edited construct, neutral refactors must stay silent)')
+        with open(path, 'w', encoding='utf-8') as fh:
+            json.dump(ev, fh, indent=1)
+    except OSError:
+        pass
     return 0
+
+
+if __name__ == '__main__':
+    import sys
+    sel = [a for a in sys.argv[1:] if not a.startswith('--')]
+    rc, _ = run_variants(sel or None, None)
+    sys.exit(rc)
